@@ -80,61 +80,98 @@ def c12a(ck, prog):
                 for x, y in ((a, b), (b, a)):
                     if y and y[-1][0] == "call" and re.search(r"jwt::JWT::<Payload>::alg_str$", y[-1][1].callee or ""):
                         xc = x[-1][1] if x and x[-1][0] == "call" else None
-                        src = decision.describe_deep(f, xc.args[0], 8) if xc is not None and xc.args else guards.describe_origin(f, x)
+                        src = (xc.name + "(" + ",".join(decision.describe_deep(f, a_, 8) for a_ in xc.args) + ")") if xc is not None and xc.args else guards.describe_origin(f, x)
                         if "const 'alg'" in src and "get(" in src and "part_value" in src:
                             eqc = [c for c in f.calls() if c.bb in f.dom_chain(fa.sw_bb) and c.name in ("eq", "ne")]
                             algok, how = True, "`header.get(\"alg\") == self.alg_str()` (switch bb%d)" % fa.sw_bb
         ck.ob(R, "alg-check" + tag, algok, f.loc(None), "" if algok else "Ok(payload) is reachable without the header's `alg` having been compared equal to the configured algorithm: " + how, how=how)
 
-        # (2) time claims
-        now_calls = f.calls_to(r"^ohkami::util::unix_timestamp$")
+        # (2) time claims -- read on the expanded body (helpers, Option combinators and their closures spliced in), where each
+        # test is one integer comparison `claim-or-default  <op>  now` whose true outcome must not reach this Ok
+        g = prog.flattened(f, r"::as_u64$", combinators=True)
+        now_calls = g.calls_to(r"^ohkami::util::unix_timestamp$")
+        okb = bb
         for claim, op, default in (("nbf", "Gt", "0"), ("exp", "Le", str(2**64 - 1)), ("iat", "Gt", "0")):
-            found, how = False, "no dominating `%s` test" % claim
-            for fa in facts:
-                if fa.kind == "boolcall" and not fa.truth and fa.call.name == "is_some_and":
-                    src = decision.describe_deep(f, fa.call.args[0], 8)
-                    if ("const '%s'" % claim) not in src or "get(" not in src:
+            found, how = False, "no comparison of the `%s` claim with the current time" % claim
+            sites = []
+            for bi in sorted(g.live_blocks()):
+                if g.is_cleanup(bi):
+                    continue
+                for st in g.blocks[bi]["st"]:
+                    if not (st["k"] == "=" and st["r"][0] == "bin" and st["r"][1] in ("Gt", "Ge", "Lt", "Le", "Eq", "Ne")):
                         continue
-                    rc = paths.root_call(f, fa.call.args[0], through=paths.TRANSPARENT + r"|::get$")
-                    # the JSON value searched must be the payload part (2nd part)
-                    pv = rc if rc is not None and rc.name == "part_value" else None
-                    part = paths.root_call(f, pv.args[0]) if pv is not None else None
-                    if part is None or len(nx) < 2 or part.bb != nx[1].bb:
-                        how = "the `%s` claim is not read from the payload part" % claim
-                        continue
-                    clos = f.origin(fa.call.args[1])
-                    if not (clos and clos[-1][0] == "agg" and clos[-1][1][1].get("k") == "closure"):
-                        how = "`%s` test is not a closure literal" % claim
-                        continue
-                    cf = prog.fns[clos[-1][1][1]["def"]]
-                    e = decision.show(decision.bool_expr(cf))
-                    m = re.fullmatch(r"(Gt|Ge|Lt|Le)\((.*),(.*)\)", e)
-                    if not m:
-                        how = "`%s` test computes `%s`" % (claim, e)
-                        continue
-                    o, l, r = m.group(1), m.group(2), m.group(3)
-                    if "as_u64" not in l and "as_u64" in r:
-                        o, l, r = guards.FLIP[o], r, l
-                    good = o == op and re.search(r"unwrap_or\(as_u64\(arg2\),const %s\)" % default, l) and "now" in r or False
-                    if good:
-                        # `now` must be the single unix_timestamp() reading
-                        cap = decision.describe_deep(f, fa.call.args[1], 3)
-                        good = "unix_timestamp()" in cap and len(now_calls) == 1
-                        if not good:
-                            how = "`%s` is not compared with the single unix_timestamp() reading (%s)" % (claim, cap)
-                            continue
-                        found, how = True, "`%s`: rejects when %s (switch bb%d)" % (claim, e, fa.sw_bb)
-                    else:
-                        how = "`%s` test computes `%s`, expected %s(as_u64 or %s, now)" % (claim, e, op, default)
+                    sides = []
+                    for opnd in (st["r"][2], st["r"][3]):
+                        lv = paths.leaf_values(g, opnd) if opnd[0] in ("c", "m") else []
+                        calls_ = [l[1] for l in lv if l[0] == "call"]
+                        d = " ".join(c_.name + "(" + ",".join(decision.describe_deep(g, a_, 14) for a_ in c_.args) + ")" for c_ in calls_) + " " + decision.describe_deep(g, opnd, 14)
+                        sides.append((d, calls_))
+                    for (da, ca), (db, cb), o in ((sides[0], sides[1], st["r"][1]), (sides[1], sides[0], guards.FLIP.get(st["r"][1], st["r"][1]))):
+                        if ("const '%s'" % claim) in da and "get(" in da and "unix_timestamp(" in db:
+                            sites.append((bi, st, o, da, ca, db))
+            if len(sites) != 1:
+                if sites:
+                    how = "the `%s` claim is compared with the time at %d places" % (claim, len(sites))
+                ck.ob(R, "claim-%s%s" % (claim, tag), False, f.loc(None), "Ok(payload) is reachable without a correct `%s` test: %s" % (claim, how), how=how)
+                continue
+            bi, st, o, da, ca, db = sites[0]
+            dm = re.search(r"unwrap_or\(as_u64\(.*?\),const (\d+)", da)
+            e = "%s(%s or %s, now)" % (o, claim, dm.group(1) if dm else "?")
+            good = o == op and re.search(r"unwrap_or\(as_u64\(.*\),const %s(\.\^\w+)?\)" % default, da) is not None
+            if not good:
+                how = "`%s` test computes `%s`, expected %s(as_u64 or %s, now)" % (claim, e, op, default)
+            else:
+                # the JSON value searched is the payload part (2nd part of the token)
+                getc = None
+                for c_ in ca:
+                    x = c_
+                    for _ in range(6):
+                        if x is None or x.name == "get":
+                            break
+                        x = paths.root_call(g, x.args[0], through=r"$^") if x.args else None
+                    if x is not None and x.name == "get":
+                        getc = x
+                rc = paths.root_call(g, getc.args[0], through=paths.TRANSPARENT) if getc is not None else None
+                pv = rc if rc is not None and rc.name == "part_value" else None
+                part = paths.root_call(g, pv.args[0]) if pv is not None else None
+                if part is None or len(nx) < 2 or part.bb != nx[1].bb:
+                    good, how = False, "the `%s` claim is not read from the payload part" % claim
+            if good and len(now_calls) != 1:
+                good, how = False, "`%s` is not compared with the single unix_timestamp() reading (%d readings)" % (claim, len(now_calls))
+            if good:
+                # acted on: wherever the comparison's result is tested, its true edge cannot reach this Ok
+                tested = []
+                for sb in sorted(g.live_blocks()):
+                    t_ = g.term(sb)
+                    if t_["k"] == "switch" and t_["dty"] == "bool" and t_["discr"][0] in ("c", "m") and not g.is_cleanup(sb):
+                        if any(k_ == "other" and dbb == bi and pl_ is st["r"] for k_, pl_, dbb in paths.value_defs(g, t_["discr"])):
+                            tested.append(sb)
+                leaks = []
+                for sb in tested:
+                    for tb, lab in g.succ(sb):
+                        if lab != 0 and okb in g.reachable_from(tb):
+                            leaks.append(sb)
+                if not tested:
+                    good, how = False, "the result of the `%s` comparison is never tested" % claim
+                elif leaks:
+                    good, how = False, "Ok(payload) is reachable from the true outcome of `%s`" % e
+                else:
+                    found, how = True, "`%s`: rejects when %s (tested at bb%s)" % (claim, e, ",".join(map(str, tested)))
             ck.ob(R, "claim-%s%s" % (claim, tag), found, f.loc(None), "" if found else "Ok(payload) is reachable without a correct `%s` test: %s" % (claim, how), how=how)
 
         # (3) signature
         sigok, how = False, "no dominating true edge of the signature comparison"
         for fa in facts:
             if fa.kind == "boolcall" and fa.truth and (fa.call.name == "eq" or fa.call.callee in prog.fns and len(fa.call.args) == 2 and fa.call.fn.locals[fa.call.dest[0]] == "bool" and "verified" in (fa.call.callee or "")):
-                sigok, how = check_sig_eq(f, prog, fa.call, nx)
-                how += " (switch bb%d)" % fa.sw_bb
-            elif fa.kind == "boolphi" and fa.truth:
+                if sigok:
+                    continue     # a comparison of the signature was already found; other boolean helpers on the path are not it
+                o_, h_ = check_sig_eq(f, prog, fa.call, nx)
+                # a local boolean helper that does not touch the signature part is some other test, not a failed signature test
+                touches_sig = any("next(" in decision.describe_deep(f, a_, 8) or "finalize" in decision.describe_deep(f, a_, 8) for a_ in fa.call.args)
+                if o_ or fa.call.name == "eq" or touches_sig or how.startswith("no dominating"):
+                    if o_ or touches_sig or fa.call.name == "eq":
+                        sigok, how = o_, h_ + " (switch bb%d)" % fa.sw_bb
+            elif fa.kind == "boolphi" and fa.truth and not sigok:
                 allok, hows, n = True, [], 0
                 for dbb, steps in fa.defs:
                     n += 1
